@@ -81,7 +81,16 @@ struct Payload
 };
 using A = Payload<0, 4>;
 using B = Payload<1, 48>;
-using C = Payload<2, 300>;
+// C is built from several arguments of different kinds (an int, a move-only unique_ptr, an lvalue string, an rvalue string):
+// make_quaint must forward them all
+struct C : Payload<2, 300>
+{
+    bool args_ok;
+    C(int i, std::unique_ptr<int> mo, const std::string& lv, std::string&& rv)
+    : Payload<2, 300>(i), args_ok(mo && *mo == i + 1 && lv == "lvalue-argument" && rv == "rvalue-argument-longer-than-sso")
+    {
+    }
+};
 static const char TN[] = "ABC";
 
 using QP = nitro::lang::quaint_ptr;
@@ -97,7 +106,7 @@ static std::string ptr_obs(const QP& p)
     const Rec& r = objs[it->second];
     if (!r.alive) return "X";                             // dangling
     int seen = -1;
-    switch (r.type) { case 0: seen = p.as<A>().id; break; case 1: seen = p.as<B>().id; break; default: seen = p.as<C>().id; }
+    switch (r.type) { case 0: seen = p.as<A>().id; break; case 1: seen = p.as<B>().id; break; default: seen = p.as<C>().args_ok ? p.as<C>().id : -2; }
     return std::to_string(it->second) + (seen == it->second ? "" : "!");
 }
 
@@ -126,9 +135,30 @@ static QP make(int t)
     {
     case 0: return nitro::lang::make_quaint<A>(id);
     case 1: return nitro::lang::make_quaint<B>(id);
-    default: return nitro::lang::make_quaint<C>(id);
+    default:
+    {
+        const std::string lv = "lvalue-argument";
+        return nitro::lang::make_quaint<C>(id, std::make_unique<int>(id + 1), lv, std::string("rvalue-argument-longer-than-sso"));
+    }
     }
 }
+// the same objects owned by a plain unique_ptr of quaint_ptr's base type: what the re-exported base operator= accepts
+using BaseUP = std::unique_ptr<void, std::function<void(void*)>>;
+static BaseUP make_base(int t)
+{
+    int id = static_cast<int>(objs.size());
+    switch (t)
+    {
+    case 0: return BaseUP(new A(id), [](void* p) { delete static_cast<A*>(p); });
+    case 1: return BaseUP(new B(id), [](void* p) { delete static_cast<B*>(p); });
+    default:
+        return BaseUP(new C(id, std::make_unique<int>(id + 1), "lvalue-argument", "rvalue-argument-longer-than-sso"),
+                      [](void* p) { delete static_cast<C*>(p); });
+    }
+}
+static_assert(!std::is_copy_constructible<QP>::value && !std::is_copy_assignable<QP>::value, "quaint_ptr must not be copyable");
+static_assert(std::is_move_constructible<QP>::value && std::is_move_assignable<QP>::value && std::is_default_constructible<QP>::value,
+              "quaint_ptr must be movable and default constructible");
 
 static void cleanup()
 {
@@ -190,6 +220,13 @@ static std::string run(int n, const std::string& opsw)
             }
             else if (f[0] == "dc") { std::size_t i = arg(1); if (i < pool.size() && !pool[i]) { ok = true; pool[i].emplace(); } }
             else if (f[0] == "vo") { if (!vec.empty()) { ok = true; vec.pop_back(); } }
+            else if (f[0] == "ve") { std::size_t k = arg(1); if (k < vec.size()) { ok = true; vec.erase(vec.begin() + static_cast<std::ptrdiff_t>(k)); } }
+            else if (f[0] == "au")
+            {
+                std::size_t i = arg(1);
+                int t = static_cast<int>(arg(2));
+                if (live(i) && t >= 0 && t < 3) { ok = true; *pool[i] = make_base(t); }
+            }
             else return "BADCASE";
             out += (ok ? "ok|" : "skip|") + state_obs(pool, vec) + ";";
         }
